@@ -21,8 +21,10 @@ Outcome ==
             /\ Ev.realipok                                          \* the caller's address added exactly when absent
             /\ Ev.reqmetaok                                         \* the request metadata reaches the backend
   /\ UNCHANGED cfg /\ Step
-Skip == l <= N /\ Ev.ev \notin {"Reset", "ProxyOutcome", "ProxyHang"} /\ UNCHANGED cfg /\ Step
-Next == Reset \/ Outcome \/ Skip
+\* concurrent proxied calls: every caller receives the body and the reply metadata of its own call
+Conc == Is("ProxyConc") /\ Ev.wrong = 0 /\ Ev.errs = 0 /\ Ev.ok = Ev.total /\ UNCHANGED cfg /\ Step
+Skip == l <= N /\ Ev.ev \notin {"Reset", "ProxyOutcome", "ProxyHang", "ProxyConc"} /\ UNCHANGED cfg /\ Step
+Next == Reset \/ Outcome \/ Conc \/ Skip
 Spec == Init /\ [][Next]_vars
 Accepted == PrintT(<<"HWM", TLCGet(1), N>>) /\ TRUE
 =============================================================================
